@@ -460,6 +460,42 @@ pub fn run(tier: Tier, shard: Shard, stats: &mut Stats) {
             }
         }
     }
+    // a precision (or a width) in the format spec: the count and the unit are never cut off
+    for d in [Duration::from_secs(2), Duration::from_secs(59), Duration::from_secs(720), Duration::from_secs(90_000), Duration::MAX] {
+        if own(stats) {
+            let plain = format!("{}", HumanDuration(d));
+            let alt = format!("{:#}", HumanDuration(d));
+            for (spec, got, want) in [
+                ("{:.0}", format!("{:.0}", HumanDuration(d)), &plain),
+                ("{:.2}", format!("{:.2}", HumanDuration(d)), &plain),
+                ("{:#.1}", format!("{:#.1}", HumanDuration(d)), &alt),
+                ("{:>4.3}", format!("{:>4.3}", HumanDuration(d)), &plain),
+            ] {
+                if got.trim() != want.as_str() {
+                    stats.violation(viol("HumanDuration: a precision in the format spec cuts the text", format!("HumanDuration({d:?}) with {spec}"), format!("{got:?}, plain form {want:?}")));
+                }
+            }
+            let fd = format!("{}", FormattedDuration(d));
+            let got = format!("{:.1}", FormattedDuration(d));
+            if got.trim() != fd {
+                stats.violation(viol("FormattedDuration: a precision in the format spec cuts the text", format!("FormattedDuration({d:?}) with {{:.1}}"), format!("{got:?}, plain form {fd:?}")));
+            }
+        }
+    }
+    for n in [0u64, 999, 1_234_567, u64::MAX] {
+        if own(stats) {
+            for (name, plain, got) in [
+                ("HumanCount", format!("{}", HumanCount(n)), format!("{:.1}", HumanCount(n))),
+                ("HumanBytes", format!("{}", HumanBytes(n)), format!("{:.1}", HumanBytes(n))),
+                ("DecimalBytes", format!("{}", DecimalBytes(n)), format!("{:.0}", DecimalBytes(n))),
+                ("BinaryBytes", format!("{}", BinaryBytes(n)), format!("{:.3}", BinaryBytes(n))),
+            ] {
+                if got.trim() != plain {
+                    stats.violation(viol("bytes/count: a precision in the format spec changes the text", format!("{name}({n}) with a precision"), format!("{got:?}, plain form {plain:?}")));
+                }
+            }
+        }
+    }
     history_independence(shard, stats);
     stats.sample(json!("HumanCount(1234567) == 1,234,567"));
     stats.sample(json!("HumanDuration(89.5 s +- 2 ms), FormattedDuration(86399 s, 86400 s)"));
